@@ -22,6 +22,10 @@ struct / tuple / unit variants, generic tagged enum, alias, generic alias); ever
      The shape of the renamed definition (definition_shape_part): tagged enums with one / two / many variants, declared or
      skipped down to that; unit enums with no / one / several variants; unit, empty and skipped-to-empty structs; newtype
      structs; aliases; serialized_as items; the generic version of each - renamed and referred to from every position.
+     What a struct variant has left (struct_variant_members_part): struct variants declaring 0 / 1 / 2-4 members of which none /
+     some / all are removed by serde(skip) / typeshare(skip) / a cfg(target_os) that --target-os does not accept, in enums with
+     and without serde(rename), generics, prefixes: every helper name `<prefix><Enum><Variant>Inner` the output spells - as a
+     payload type, in a Swift decode call, in a Go accessor or constructor - must be a name the output defines.
 """
 import itertools, re
 from common import *
@@ -331,12 +335,12 @@ def extract(lang, text):
                 if m2:
                     refs.update(idents(m2.group(2)))
                 continue
-            m = re.match(r"\t(?:readonly )?(\w+)\??: (.+);$", ln)
+            m = re.match(r'\t(?:readonly )?(\w+|"[^"]*")\??: (.+);$', ln)          # (a member renamed to kebab-case is written in quotes)
             if m:
                 refs.update(idents(m.group(2)))
                 fields[(decl, m.group(1))] = m.group(2)
                 continue
-            m = re.match(r'\t\| \{ \w+: "[^"]*", \w+\??: (.+) \}$', ln)
+            m = re.match(r'\t\| \{ \w+: "[^"]*", \w+\??: (.+) \};?$', ln)     # (the last variant's line ends with `};`)
             if m:
                 refs.update(idents(m.group(1)))
     elif lang == "kotlin":
@@ -1306,6 +1310,225 @@ def definition_shape_part(check):
         check.violation(what, case=case, impl=ra, model=ma, failing_input=False, broken=broken)
 
 
+# ----------------------------------------------------------------------------- struct variants and the members they have left
+
+# how many members a struct variant declares x how many of them are removed before generation x what removes them
+SV_LEADS = ([("0", "none", None), ("1", "none", None), ("many", "none", None)] +
+            [(d, r, w) for d, r in (("1", "all"), ("many", "some"), ("many", "all")) for w in ("serde", "typeshare", "cfg", "mixed")])
+SV_ENUMS = ["Event", "Command", "Packet", "Signal"]                  # (no builtin of any target language among them)
+SV_VARIANTS = ["Started", "Stopped", "Moved", "Opened", "Closed", "Failed", "Queued", "Synced"]
+SV_FIELDS = ["id", "code", "cache", "note", "task", "seen_at", "items", "retry_count"]
+SV_OTHER_OS, SV_THIS_OS = "android", "ios"
+
+
+def sv_variant(rng, ident, declared, removed, way, types, first_type=None):
+    """a struct variant `ident` declaring 0 / 1 / 2-4 members of which none / some (at least one stays) / all are removed by
+    serde(skip), typeshare(skip), cfg(target_os = <another os>) or a mixture.  -> (variant, plan entry)"""
+    n = {"0": 0, "1": 1, "many": rng.randint(2, 4)}[declared]
+    k = {"none": 0, "some": rng.randint(1, max(1, n - 1)), "all": n}[removed]
+    gone = set(rng.sample(range(n), k))
+    names = rng.sample(SV_FIELDS, n)
+    fs, ways = [], []
+    for i in range(n):
+        attrs = []
+        if i in gone:
+            w = rng.choice(["serde", "typeshare", "cfg"]) if way == "mixed" else way
+            ways.append(w)
+            if w == "cfg":
+                attrs.append(rng.choice([m_list("cfg", [m_nv("target_os", lit_s(SV_OTHER_OS))]),
+                                         m_list("cfg", [m_list("any", [m_nv("target_os", lit_s(SV_OTHER_OS)), m_nv("target_os", lit_s("windows"))])])]))
+            else:
+                attrs.append(m_list(w, [m_path("skip")]))
+        elif rng.random() < 0.15:
+            attrs.append(m_list("cfg", [m_nv("target_os", lit_s(SV_THIS_OS))]))      # a cfg that --target-os accepts: the member stays
+        ty = first_type if (i == 0 and first_type is not None) else rng.choice(types)
+        fs.append(field(attrs, names[i], ty))
+    vattrs = []
+    r = rng.random()
+    if r < 0.15:
+        vattrs.append(m_list("serde", [m_nv("rename", lit_s(rng.choice([ident.lower(), ident + "V2", "on-" + ident.lower()])))]))
+    elif r < 0.25:
+        vattrs.append(m_list("serde", [m_nv("rename_all", lit_s(rng.choice(["camelCase", "SCREAMING_SNAKE_CASE", "kebab-case"])))]))
+    return ({"attrs": vattrs, "ident": ident, "fields": ("named", fs)},
+            {"variant": ident, "declared": n, "left": n - k, "removed_by": sorted(set(ways)), "uses_cfg": "cfg" in ways})
+
+
+def sv_program(rng, lead):
+    """1-2 tagged enums (serde(rename) on half of them, one in three generic) of 1-5 variants: struct variants of every
+    combination of SV_LEADS (the first variant of the first enum is of the combination `lead`), tuple and unit variants, whole
+    variants removed by a skip attribute; the members refer to primitives, containers, the enum's parameter, a renamed struct and
+    the other enum; a root struct refers to the enums.  -> (abstract file, plan, target os list)"""
+    ts = m_path("typeshare")
+    task_new = rng.choice([None, "Job", "TaskDto"])
+    items = [{"kind": "struct", "attrs": [ts] + ([m_list("serde", [m_nv("rename", lit_s(task_new))])] if task_new else []), "ident": "Task",
+              "generics": [], "fields": ("named", [field([], "id", t_path("u32"))])}]
+    plan, uses_cfg = [], False
+    n_enums = rng.choice([1, 1, 2])
+    for e, name in enumerate(rng.sample(SV_ENUMS, n_enums)):
+        new = rng.choice([name + "Dto", "Wire" + name, "Api%sV2" % name]) if rng.random() < 0.5 else None
+        generic = rng.random() < 0.35
+        types = [t_path("u32"), t_path("String"), t_path("bool"), t_path("Option", [t_path("String")]), t_path("Vec", [t_path("u32")]),
+                 t_path("Task"), t_path("Vec", [t_path("Task")]), t_path("Option", [t_path("Task")]), t_path("HashMap", [t_path("String"), t_path("Task")])]
+        if generic:
+            types += [t_path("T"), t_path("Vec", [t_path("T")]), t_path("Option", [t_path("T")])]
+        if plan:
+            p = plan[0]
+            types.append(t_path(p["name"], [t_path("u32")] if p["generic"] else []))
+        idents = rng.sample(SV_VARIANTS, 5)
+        n_var = rng.choice([1, 2, 3, 3, 4, 5])
+        variants, vplan = [], []
+        for i in range(n_var):
+            if e == 0 and i == 0:
+                kind, combo = "s", lead
+            else:
+                # (the first variant of an enum is never a unit variant and never removed: the enum stays a tagged one)
+                kind, combo = rng.choice("sssn" if i == 0 else "sssntu"), rng.choice(SV_LEADS)
+            if kind == "s":
+                # (the parameter of a generic enum sits in the first member of its first struct variant: kept or removed with it)
+                v, vp = sv_variant(rng, idents[i], combo[0], combo[1], combo[2], types, t_path("T") if generic and i == 0 and combo[0] != "0" else None)
+                uses_cfg = uses_cfg or vp["uses_cfg"]
+            elif kind == "n":
+                v, vp = {"attrs": [], "ident": idents[i], "fields": ("unnamed", [field([], None, rng.choice(types))])}, {"variant": idents[i], "tuple": True}
+            else:
+                v, vp = {"attrs": [], "ident": idents[i], "fields": ("unit",)}, {"variant": idents[i], "unit": True}
+            if i > 0 and rng.random() < 0.12:
+                # the whole variant is not shared: neither a helper struct nor a case for it
+                v["attrs"] = v["attrs"] + [m_list(rng.choice(["serde", "typeshare"]), [m_path("skip")])]
+                vp["skipped"] = True
+            variants.append(v)
+            vplan.append(vp)
+        order = list(range(n_var))
+        rng.shuffle(order)
+        serde = ([m_nv("rename", lit_s(new))] if new else []) + [m_nv("tag", lit_s("type")), m_nv("content", lit_s("content"))]
+        rng.shuffle(serde)
+        items.append({"kind": "enum", "attrs": [ts, m_list("serde", serde)], "ident": name, "generics": [("ty", "T")] if generic else [],
+                      "variants": [variants[i] for i in order]})
+        plan.append({"name": name, "new": new, "generic": generic, "variants": [vplan[i] for i in order]})
+    ref = lambda p: t_path(p["name"], [t_path(rng.choice(["String", "Task"]))] if p["generic"] else [])
+    hf = [field([], "task", t_path("Task"))]
+    for k, p in enumerate(plan):
+        hf.append(field([], "direct%d" % k, ref(p)))
+        hf.append(field([], "inside%d" % k, rng.choice([t_path("Vec", [ref(p)]), t_path("Option", [ref(p)]), t_path("HashMap", [t_path("String"), ref(p)])])))
+    items.append({"kind": "struct", "attrs": [ts], "ident": "Holder", "generics": [], "fields": ("named", hf)})
+    rng.shuffle(items)
+    target_os = []
+    if uses_cfg:
+        # under [] or a list that names the other os the cfg'd members stay: the plan counts them as kept
+        target_os = [SV_THIS_OS] if (lead[2] in ("cfg", "mixed") or rng.random() < 0.8) else rng.choice([[], [SV_OTHER_OS], [SV_THIS_OS, SV_OTHER_OS]])
+        if target_os != [SV_THIS_OS]:
+            for it in items:
+                if it["kind"] != "enum":
+                    continue
+                p = next(q for q in plan if q["name"] == it["ident"])
+                for v, vp in zip(it["variants"], p["variants"]):
+                    if "left" in vp:
+                        vp["left"] = sum(1 for f in v["fields"][1] if not any(a[0] == "l" and a[1] in (["serde"], ["typeshare"]) for a in f["attrs"]))
+                        vp["removed_by"] = [w for w in vp["removed_by"] if w != "cfg"]
+                        vp["uses_cfg"] = False
+    return {"attrs": [], "items": items}, plan, target_os
+
+
+def struct_variant_members_part(check):
+    """The dimension explored: what a struct variant of a tagged enum has *left* when its helper struct `<prefix><Enum><Variant>Inner`
+    is written - variants declaring 0 (`Variant {}`) / 1 / 2-4 members, of which none / some / all are removed by serde(skip),
+    typeshare(skip), a cfg(target_os) that --target-os does not accept (plain or inside any(..)), or a mixture of these; next to
+    them members with a cfg that is accepted, the same program under a --target-os that keeps the members, tuple and unit
+    variants, whole variants removed, variant-level serde(rename) / rename_all; enums of 1-5 variants with and without
+    serde(rename), generic (the parameter kept or removed with a member) or not, referring to each other, to a renamed struct
+    and referred to from a root struct; prefixes for Swift / Kotlin; all six back ends.
+    Demanded (the property on the implementation's text): every name the output refers to - the extractor's type positions, and
+    every word `…Inner` anywhere in the code: payload types, Swift decode calls, Go accessors and constructors - is a name the
+    output defines (listed exception: Go names enums after the Rust identifier).  Also compared: model text = implementation text
+    (bytes), TsV.C09.allDefs / refs = the names extracted from the implementation's text."""
+    rng = check.rng
+    g = mkgen(rng)
+    rounds = 60 if check.thorough else 10
+    mreqs, rreqs, freqs, meta, allnames = [], [], [], [], set()
+    for k in range(rounds * len(SV_LEADS)):
+        f, plan, target_os = sv_program(rng, SV_LEADS[k % len(SV_LEADS)])
+        allnames |= l2.names_of(f)
+        for lang in LANGS:
+            pfx = rng.choice(PREFIXES) if lang in ("kotlin", "swift") else ""
+            cfg = cfg_of(lang, pfx)
+            m, r, texts = l2.requests(lang, cfg, [{"crate": "", "file_name": "out", "path": "src/lib.rs", "file": f}], g, target_os=target_os)
+            mreqs.append(m)
+            rreqs.append(r)
+            freqs.append([S("c09-facts"), l2.lang_sx(lang, cfg), list(target_os), g.ext_sx(), [["", "out", "src/lib.rs", sx_file(f, texts[0])]]])
+            meta.append((lang, pfx, plan, target_os, texts[0], r))
+    both = model(mreqs + freqs, names=allnames)
+    mans, fans = both[:len(mreqs)], both[len(mreqs):]
+    rans = runner(rreqs)
+    mismatch, found = None, []
+    for (lang, pfx, plan, target_os, src, rreq), ma, fa, ra in zip(meta, mans, fans, rans):
+        helpers = [(p, v) for p in plan for v in p["variants"] if "left" in v and not v.get("skipped")]
+        check.saw(("struct-variant-members", lang, pfx, tuple(target_os), src), nontrivial=any(v["left"] == 0 for _, v in helpers))
+        check.count("struct-variant-programs-" + lang)
+        case = {"lang": lang, "prefix": pfx, "target_os": target_os, "source": src, "request": rreq,
+                "enums": [(p["name"], p["new"], "generic" if p["generic"] else "",
+                           [(v["variant"], "skipped" if v.get("skipped") else "tuple" if v.get("tuple") else "unit" if v.get("unit") else
+                             "%d declared, %d left" % (v["declared"], v["left"])) for v in p["variants"]]) for p in plan]}
+        if "ok" not in ra:
+            check.count("struct-variant-programs-not-generated")
+        else:
+            if lang == "python":
+                for _, v in helpers:
+                    check.count("struct-variant:%s declared, %s left%s" % (v["declared"] if v["declared"] < 2 else "2-4",
+                                                                            "none" if v["left"] == 0 else "all" if v["left"] == v["declared"] else "some",
+                                                                            (" (removed by %s)" % "+".join(v["removed_by"])) if v["removed_by"] else ""))
+            text = list(ra["ok"].values())[0]
+            defs, aux, refs, params, fields = extract(lang, text)
+            ppfx = pfx if lang in ("kotlin", "swift") else ""
+            # the oracle of the property: every referenced name is defined; a helper's name wherever the code spells it
+            failing = {n for n in refs if n not in defs and n not in BUILTIN[lang] and n not in params | {"T"}}
+            inner_words = set(re.findall(r"(?<![A-Za-z0-9_])(\w+Inner)(?![A-Za-z0-9_])", code_of(lang, text)))
+            check.count("helper-struct-names-referred-to", len(inner_words))
+            failing |= {n for n in inner_words if n not in defs}
+            listed = {ppfx + p["new"] for p in plan if p["new"] and lang == "go"}
+            if failing & listed:
+                check.count("known:def-original")
+                check.known("definition-under-original-name", {"lang": lang, "source": src, "undefined_references": sorted(failing & listed)})
+            if not check.known_open("definition-under-original-name"):
+                listed = set()
+            if failing - listed:
+                who = []
+                for p, v in helpers:
+                    for enum_name in {p["name"], p["new"] or p["name"]}:
+                        if ppfx + enum_name + v["variant"] + "Inner" in failing:
+                            who.append("; `%s` is the helper struct of the struct variant `%s::%s`, which declares %d member(s) and has %d left%s"
+                                       % (ppfx + enum_name + v["variant"] + "Inner", p["name"], v["variant"], v["declared"], v["left"],
+                                          (" (removed by %s%s)" % (" / ".join(v["removed_by"]), ", --target-os %s" % ",".join(target_os) if v["uses_cfg"] else ""))
+                                          if v["removed_by"] else ""))
+                bad = ("%s output refers to %s, which it does not define (defined: %s)%s"
+                       % (lang, sorted(failing - listed), sorted(defs - aux), "".join(who)))
+                found.append((len(src), len(found), bad, case, ra, ma))
+                continue
+        if mismatch is not None:
+            continue
+        check.count("struct-variant-programs-compared-with-model")
+        if l2.norm(ma) != l2.norm(ra):
+            d = l2.text_diff(list(ma["ok"].values())[0], list(ra["ok"].values())[0]) if "ok" in ma and "ok" in ra else "%s vs %s" % (str(ma)[:200], str(ra)[:200])
+            mismatch = ("the %s model's text differs from the implementation's on struct variants with removed members: %s" % (lang, d),
+                        case, ma, ra, BROKEN["correspondence"])
+        elif "ok" in ra:
+            if "ok" not in fa:
+                mismatch = ("c09-facts failed: %s" % str(fa)[:200], case, fa, ra, BROKEN["facts"])
+                continue
+            mdefs, mrefs = set(fa["ok"]["defs"]), {r[1] for r in fa["ok"]["refs"]}
+            urefs = {n for n in refs if n not in BUILTIN[lang] and n not in aux}
+            if mdefs != defs - aux or mrefs != urefs:
+                mismatch = ("TsV.C09.allDefs/refs differ from the names extracted from the implementation's text: defs %s vs %s, refs %s vs %s"
+                            % (sorted(mdefs), sorted(defs - aux), sorted(mrefs), sorted(urefs)), case, fa, ra, BROKEN["facts"])
+    if found:
+        # the shortest failing program is reported (it explains the differences from the model as well)
+        _, _, bad, case, ra, ma = min(found)
+        check.count("struct-variant-failing-programs", len(found))
+        check.violation(bad, case=case, impl=ra, model=ma, failing_input=True)
+        return
+    if mismatch:
+        what, case, ma, ra, broken = mismatch
+        check.violation(what, case=case, impl=ra, model=ma, failing_input=False, broken=broken)
+
+
 def classes_of(c):
     return sorted(set().union(*c["expected"].values())) if c["expected"] else []
 
@@ -1323,8 +1546,12 @@ def run(check):
                   "= some item with serde(rename) is referred to.  definition_shape_part: programs of 2-4 definitions over the shapes %s "
                   "(generic where the shape allows), renamed, each referred to from a field, a container element, a generic argument, an "
                   "alias target, a tuple-variant payload and a struct-variant member; every referenced name must be defined, the new name "
-                  "defined and the Rust name gone (Go enums: listed finding); model text and TsV.C09.allDefs/refs compared as well"
-                  % (NAMES, KINDS, PREFIXES, [s[0] for s in SHAPES]))
+                  "defined and the Rust name gone (Go enums: listed finding); model text and TsV.C09.allDefs/refs compared as well.  "
+                  "struct_variant_members_part: 1-2 tagged enums (renamed or not, generic or not) of 1-5 variants whose struct variants "
+                  "declare 0 / 1 / 2-4 members with none / some / all of them removed by serde(skip), typeshare(skip), cfg(target_os) under "
+                  "--target-os or a mixture (combinations %s, each leading equally often); every referenced name and every `...Inner` word of "
+                  "the code must be defined; model text and TsV.C09.allDefs/refs compared as well"
+                  % (NAMES, KINDS, PREFIXES, [s[0] for s in SHAPES], ["/".join(str(x) for x in l if x) for l in SV_LEADS]))
     cases = []
     n = 3000 if check.thorough else 1500
     for i in range(n):
@@ -1368,6 +1595,8 @@ def run(check):
     replay_witnesses(check)
     if not check.has_failing():
         definition_shape_part(check)
+    if not check.has_failing():
+        struct_variant_members_part(check)
     if not check.has_failing():
         multi_part(check)
     if not check.has_failing():
